@@ -11,6 +11,11 @@ AUX = c01.AUX + [
     ('W', ('class', None, [('xs', False, ('star', ('ref', 'K'))), ('t', False, ('opt', ('ref', 'Z')))])),
 ]
 AUXD = dict(AUX)
+# further leaves: class references (incl. one whose instances span many characters), a predicate on a
+# literal, a regex that matches the empty string but can still fail, an end anchor
+MORE_LEAVES = [('ref', 'K'), ('ref', 'Z'), ('ref', 'W'),
+               ('where', ('re', '[ab]'), ('py', "lambda x: x == 'a'")),
+               ('re', '(?!b)a*'), ('re', '$')]
 EXTRA_STARTS = [
     ('rule', None, ('ref', 'K')), ('rule', None, ('ref', 'Z')), ('rule', None, ('ref', 'W')),
     ('rule', None, ('star', ('ref', 'K'))), ('rule', None, ('seq', ('expect', ('ref', 'K')), ('ref', 'K'))),
@@ -63,7 +68,7 @@ def jobs(tier):
     starts = []
     for n in range(0, nops + 1):
         srcleaves = leaves if n < 2 else c01.SMALL_LEAVES + [('ref', 'K'), ('ref', 'Z')]
-        for e in c01.gen(n, srcleaves + ([('ref', 'K'), ('ref', 'Z')] if n < 2 else [])):
+        for e in c01.gen(n, srcleaves + (MORE_LEAVES if n < 2 else [])):
             if c01.wellformed(e, AUXD):
                 starts.append(('rule', None, e))
     starts += EXTRA_STARTS
@@ -73,7 +78,7 @@ def jobs(tier):
                 continue
             rules = [(sname, d)] + AUX
             entries = [(None, None)] + [(n, None) for n, _ in rules]
-            noshift = c01.hasback(d[2]) if d[0] == 'rule' else False
+            noshift = (c01.hasback(d[2]) or "('re', '$')" in repr(d[2])) if d[0] == 'rule' else False
             mods = [(tuple(rules), (), sname, None, (), False, 'named', None)]
             yield {'mods': mods, 'inputs': inp, 'mode': 'spans', 'entries': entries,
                    'positions': 'all', 'fullparse': (True, False), 'tag': d[0] + '-start',
